@@ -689,7 +689,7 @@ def run(rep, tier, seed):
     avail = {tuple(st["vars"]["kind"][:2]) for st in states.values()}
     binds = bindings(mats, shaperoles, thorough, nt, rng if thorough else None, avail)
     rep.extra["inventory"]["declared_range_end_where_the_correlation_is_not_a_finite_real"] = dict(G.END_NOT_USABLE)
-    n, nontriv, nedges, divs, sample = replay_bindings(rep, g, states, binds, 20 if thorough else (8 if _SELFTEST else 18), rng)
+    n, nontriv, nedges, divs, sample = replay_bindings(rep, g, states, binds, 14 if thorough else (8 if _SELFTEST else 18), rng)
     if n == 0:
         raise tlc.MachineryError("nothing replayed")
     rep.add_replay("edges-on-shape-x-material-pairs", n, nontriv,
